@@ -114,7 +114,7 @@ def mkarg(ctx, kind, name, enum_ints=False):
     if kind == "dec":
         return vdec((0.0, -1.5, 2.5)[ctx.choice(name, 3)])
     if kind == "str":
-        return vstr(("", "a", "abc", "12", " a|b ")[ctx.choice(name, 5)])
+        return vstr(("", "a", "abc", "12", " a|b ", "{x#12}", "{y}{x#-9}", "{")[ctx.choice(name, 8)])
     if kind == "pattern":
         return V.ValuePattern("a")
     if kind == "date":
